@@ -453,6 +453,11 @@ func (vc *VC) applyContract(st *State, con *Contract, name string, args []Val, p
 	}
 	// havoc the callee's frame
 	ms := vc.evalModifies(env, con.Of("modifies"))
+	if !con.Has("modifies") && !con.Trusted {
+		// a contract in /repo without a modifies clause is verified without frame checking: its callers must assume that
+		// anything may have been written
+		ms.All = true
+	}
 	vc.havocModSet(st, pre, ms, true)
 	// the callee may allocate
 	al := vc.fresh("alloc", "Int")
@@ -569,6 +574,9 @@ func (vc *VC) evalModifies(env *Env, cls []*Clause) *ModSet {
 }
 
 func (vc *VC) addModItem(env *Env, ms *ModSet, item string) {
+	if item == "nothing" {
+		return
+	}
 	if item == "*" || item == "everything" {
 		ms.All = true
 		return
@@ -579,6 +587,20 @@ func (vc *VC) addModItem(env *Env, ms *ModSet, item string) {
 	}
 	if d, ok := vc.W.DB.Defs[item]; ok && d.Kind == "ghostvar" {
 		ms.Ghost[item] = true
+		return
+	}
+	if strings.HasPrefix(item, "heap(") && strings.HasSuffix(item, ")") {
+		// heap(T): any element of any []T may be written (the whole element heap of T)
+		tn := strings.TrimSpace(item[5 : len(item)-1])
+		key := tn
+		switch tn {
+		case "byte", "uint8":
+			key = "u8"
+		}
+		if ms.Families == nil {
+			ms.Families = map[string]bool{}
+		}
+		ms.Families["E_"+key] = true
 		return
 	}
 	if strings.HasPrefix(item, "region(") && strings.HasSuffix(item, ")") {
@@ -751,6 +773,9 @@ func (vc *VC) havocModSet(st *State, pre *State, ms *ModSet, allowFreshWrites bo
 				h = Sto(h, o, vc.fresh("hv", es))
 			}
 			vc.heapSet(st, n, sort, h)
+		case strings.HasPrefix(n, "E_") && familyOf(ms, n):
+			st.heap[n] = vc.fresh("Hfam_"+n, sort)
+			vc.noteWrite(n, "")
 		case strings.HasPrefix(n, "E_"):
 			if len(ms.Regions) == 0 {
 				continue
@@ -784,4 +809,13 @@ func sortedFieldKeys(m map[string][]string) []string {
 	}
 	sort.Strings(out)
 	return out
+}
+
+func familyOf(ms *ModSet, n string) bool {
+	for f := range ms.Families {
+		if n == f || strings.HasPrefix(n, f+"_") {
+			return true
+		}
+	}
+	return false
 }
